@@ -292,6 +292,7 @@ type pExec struct {
 	twinOn        bool // compare with a parser that is fresh since the last Reset (C13)
 	twin          lz.Parser
 	twinBlk       lz.Block
+	marginSeen    bool
 }
 
 func newPExec(cfg pcfg, cnt counters) (*pExec, string) {
@@ -349,6 +350,17 @@ func (e *pExec) step(line string) (out string) {
 	if e.dead {
 		return "skip"
 	}
+	defer func() {
+		// C15 (capacity accounting): behind the data there are always 7 readable bytes — the hash
+		// parsers load 8 bytes at every position (hook VerifParserBuffer)
+		if pb := lz.VerifParserBuffer(e.p); pb != nil && !e.marginSeen && len(pb.Data) > 0 && cap(pb.Data)-len(pb.Data) < 7 {
+			e.marginSeen = true
+			op := strings.Fields(line)[0]
+			d := fmt.Sprintf("len=%d cap=%d", len(pb.Data), cap(pb.Data))
+			e.find("C15", "the 7-byte read margin behind the buffered data is missing", op, d)
+			e.find("C16", "the 7-byte read margin behind the buffered data is missing", op, d)
+		}
+	}()
 	defer func() {
 		if r := recover(); r != nil {
 			out = "panic"
